@@ -339,6 +339,8 @@ class C07(PropCheck):
             scheds.append({str(p): rng.randint(1, 4) for p in pts})
         for i in range(0, len(scheds), 30):
             out.append({"k": "racing", "schedules": scheds[i:i + 30]})
+        # the inspected frame returns during the inspection and its function is entered again (same slot of the frame stack)
+        out.append({"k": "reentry", "schedules": [{"reentry": r, "gates": g} for r in range(0, 8) for g in (2, 3, 5)]})
         out.append({"k": "stress", "secs": 2 if tier == "quick" else 20})
         for _ in range(3 if tier == "quick" else 12):
             out.append({"k": "ident_reuse"})
@@ -356,6 +358,24 @@ class C07(PropCheck):
                 r = run_blocked(case)
             self._probs = r["problems"]
             return json.dumps(r)
+        if case["k"] == "reentry":
+            rs = worker(case["schedules"])
+            outs = []
+            for r in rs:
+                if r.get("kind") != "reentry":
+                    self._probs.append(f"schedule {r.get('schedule')}: {r.get('kind')} {r.get('stderr', '')[:200]}")
+                    continue
+                oc = r.get("outcome")
+                outs.append(f"{oc}:{len(r.get('stack') or [])}")
+                if oc == "snapshot" and not r.get("frame_still_running") and r.get("stack"):
+                    self._probs.append(f"schedule {r['schedule']}: the inspected frame returned during the inspection (its function was entered "
+                                       f"again); the accepted snapshot of that finished frame shows the value stack {r['stack']} -- the other "
+                                       f"invocation's")
+                elif oc not in ("snapshot", "inconsistent"):
+                    self._probs.append(f"schedule {r['schedule']}: inspect_frame {oc}")
+            if len(rs) != len(case["schedules"]):
+                self._probs.append(f"only {len(rs)} of {len(case['schedules'])} schedules produced a result")
+            return " ".join(outs)
         if case["k"] == "racing":
             rs = worker(case["schedules"])
             outs = []
